@@ -3,6 +3,7 @@ X (exhaustion): Number -> String over every shape (digit count x decimal exponen
 representation; B: toFixed/toExponential/toPrecision/toString(radix) against exact-rational spec functions,
 parseInt/parseFloat/Number() grids, Math special-value table and never-raises grid."""
 import math, random
+import specs.es_core as CORE
 from pyvc import groups
 from pyvc.groups import ob
 
@@ -70,7 +71,8 @@ def _fmt_chunk(args):
             elif kind == "toPrecision":
                 want = N.to_precision(x, p)
             else:
-                want = N.to_string_radix_int(int(x), p) if p is not None else None
+                # radix 10 (and no argument) is Number::toString itself: exponent notation from 1e21 on
+                want = CORE.number_to_string(x) if p in (None, 10) else N.to_string_radix_int(int(x), p)
         except N.RangeErr:
             want = "ERR:RangeError"
         try:
